@@ -29,7 +29,7 @@ pub const ALPHABET: &[&str] = &[
 ];
 
 /// Lines the engine cannot understand (or need not act on): the other command words of the UCI
-/// protocol bare and with arguments, wrong case, a tab-indented command (still a command after
+/// protocol bare and with arguments, a tab-indented command (still a command after
 /// trimming), a line that is not valid UTF-8 (written `\\xFC` here, sent as the byte 0xFC), a very
 /// long line. Indexed after ALPHABET (symbol i + ALPHABET.len()).
 pub const UNKNOWN: &[&str] = &[
@@ -41,7 +41,6 @@ pub const UNKNOWN: &[&str] = &[
     "ponderhit",
     "setoption",
     "position",
-    "ISREADY",
     "\t",
     "\tisready",
     "setoption name UCI_Opponent value none none human J\\xFCrgen",
@@ -79,7 +78,9 @@ pub fn judge(lines: &[&str], r: &RunResult) -> Result<(), String> {
     if r.signal.is_some() || r.exit_code != Some(0) {
         return Err(format!("exit status {:?} signal {:?}, expected a clean exit 0", r.exit_code, r.signal));
     }
-    let out: Vec<&str> = r.stdout.lines().map(|l| l.trim_end()).collect();
+    // `info string ...` may be sent at any time by an engine that has something to say (e.g. one
+    // that implements `debug on`); it is never an answer to anything and is not judged
+    let out: Vec<&str> = r.stdout.lines().map(|l| l.trim_end()).filter(|l| !l.starts_with("info string")).collect();
     let mut i = 0usize;
     let mut pos = Pos::start();
     for (n, raw) in lines.iter().enumerate() {
